@@ -148,6 +148,19 @@ CHECKS = {
                 "random multi-fault plans must end in exact payload or abort.",
         "note": "window discipline judged only in runs with drop/duplicate faults; a request retried after the request timeout may legitimately be executed twice",
     },
+    "C12": {
+        "level": "exploration",
+        "design_ref": "DESIGN.md 3 C12",
+        "technique": "runtime monitor: limits observer on the virtual LAN (independent NPCI/APCI decoder) comparing every frame with what the receiving peer announced; feasibility model for the expected outcome",
+        "text": "Client and server stacks with all pairs of max-APDU sizes, max-segments values, segmentation-support "
+                "values and proposed windows {1,2,8,127} exchange private transfers whose request and response lengths "
+                "sit around every resulting boundary, with and without capabilities learned through I-Am.  Every frame "
+                "is decoded independently: APDU length against the limit the receiver announced (request header for "
+                "responses, I-Am for requests), segmentation only where accepted, response segments within the "
+                "request's max-segments, windows within 1..127 and not above the proposal; when the limits make a "
+                "message impossible the requester must get an abort, when they allow it the acknowledgement.",
+        "note": "fault-free LAN; for responses the finer I-Am value is accepted when it rounds to the request's max-response code",
+    },
 }
 
 NOT_APPLICABLE = {pid: _PENDING for pid in ("C%02d" % i for i in range(1, 21)) if pid not in CHECKS}
